@@ -451,6 +451,9 @@ func runC02(w *World, r *Report) {
 		w.Fn("compose", "runner.resolveCompletedTasks"), w.Fn("compose", "channelManager.updateValues"), w.Fn("compose", "channelManager.updateDependencies"), w.Fn("compose", "runner.createTasks"),
 	}, map[string]string{}, "a successor that was selected gets no data or no trigger: it never runs, END never becomes ready ('no tasks to execute')")
 
+	shareRule(w, r, "C02.fanin-merge-pure", "assembling a fan-in node's input writes through none of the values being merged: in Invoke mode every successor of a node is handed the same map value, so a merge that accumulates into one predecessor's output gives a sibling entries from a node that never routed to it", 2, "C01", "C01.merge-pure")
+	shareRule(w, r, "C02.late-completions-fully-applied", "tasks that finish in the same step as a rerun / nested interrupt have their values AND their control dependencies folded into the channels, in every trigger mode: after the resume the join they routed to becomes ready", 2, "C03", "C03.completion-fully-applied")
+
 	r.Rule("C02.workflow-flags", "noDirectDependency -> (noControl=true,noData=false); dependencyWithoutInput -> (false,true); default -> (false,false); workflow branches skipData=true", 4)
 	adr := w.Fn("compose", "WorkflowNode.addDependencyRelation")
 	addEdge := w.Fn("compose", "graph.addEdgeWithMappings")
